@@ -530,8 +530,11 @@ class SynthObject(gpp.UGenParameter, metaclass=MetaSynthObject):
     def _perform_dead_code_elimination(self):
         if not self._descendants:
             # for input in self._antecedents:  # ?
+            done = []  # An input read in several slots is visited once.
             for input in self.inputs:
-                if isinstance(input, UGen) and input._descendants:
+                if isinstance(input, UGen) and input._descendants\
+                and not any(input is i for i in done):
+                    done.append(input)
                     input._descendants.discard(self)
                     input._optimize_graph()
             self._synthdef._remove_ugen(self)
